@@ -41,6 +41,10 @@ func cancelF(kind, pattern string) fakedb.Fault {
 	return fakedb.Fault{Kinds: []string{kind}, Pattern: pattern, Count: 1, Action: "cancel"}
 }
 
+func actF(kind, pattern, action string) fakedb.Fault {
+	return fakedb.Fault{Kinds: []string{kind}, Pattern: pattern, Count: 1, Action: action}
+}
+
 func regRule(action string) tcstub.Rule {
 	return tcstub.Rule{Kind: "BranchRegister", Count: 1, Action: action}
 }
@@ -63,6 +67,16 @@ func c02AutoFaults() []c02Fault {
 		{name: "cancel-q", db: []fakedb.Fault{cancelF("QUERY", "FOR UPDATE")}},
 		{name: "cancel-s", db: []fakedb.Fault{cancelF("EXEC", "^(UPDATE|DELETE|INSERT)")}},
 		{name: "cancel-q2", db: []fakedb.Fault{cancelF("QUERY", `\) IN \(\(`)}},
+		// error KINDS: the connection is lost at that call; badconn = driver.ErrBadConn (database/sql retries a pool
+		// statement on a fresh connection: every attempt is its own phase one), drop = mysql.ErrInvalidConn (no retry)
+		{name: "badconn-begin", db: []fakedb.Fault{actF("BEGIN", "", "badconn")}},
+		{name: "badconn-q", db: []fakedb.Fault{actF("QUERY", "FOR UPDATE", "badconn")}},
+		{name: "badconn-s", db: []fakedb.Fault{actF("EXEC", "^(UPDATE|DELETE|INSERT)", "badconn")}},
+		{name: "badconn-uexec", db: []fakedb.Fault{actF("STMT_EXEC", "undo_log", "badconn")}},
+		{name: "badconn-commit", db: []fakedb.Fault{actF("COMMIT", "", "badconn")}},
+		{name: "drop-s", db: []fakedb.Fault{actF("EXEC", "^(UPDATE|DELETE|INSERT)", "drop")}},
+		{name: "drop-uexec", db: []fakedb.Fault{actF("STMT_EXEC", "undo_log", "drop")}},
+		{name: "drop-commit", db: []fakedb.Fault{actF("COMMIT", "", "drop")}},
 		{name: "reg-fail+rollback", db: []fakedb.Fault{fRollb, fRollbSQL}, tc: []tcstub.Rule{regRule("fail")}},
 	}
 	for _, k := range []int{1, 2, 5} {
@@ -196,6 +210,23 @@ func c02Cases(r *hutil.Rng, n int, thorough bool) []Case {
 			idx++
 		}
 	}
+	// pinned connection: 2-3 consecutive autocommit uses of ONE *sql.Conn inside one global transaction (no
+	// ResetSession in between), faults in the first use, the full phase-one oracle on every use
+	pinFaults := []c02Fault{{name: "none"}, {name: "s", db: []fakedb.Fault{fS}}, {name: "q2", db: []fakedb.Fault{fQ2}},
+		{name: "uexec", db: []fakedb.Fault{fUExec}}, {name: "commit", db: []fakedb.Fault{fCommit}},
+		{name: "commit+rollback1", db: []fakedb.Fault{fCommit, fRollb}}, {name: "uexec+rollback1", db: []fakedb.Fault{fUExec, fRollb}},
+		{name: "reg-fail", tc: []tcstub.Rule{regRule("fail")}}, {name: "reg-conflict", tc: []tcstub.Rule{regRule("lock-conflict")}},
+		{name: "reg-fail+rollback1", db: []fakedb.Fault{fRollb}, tc: []tcstub.Rule{regRule("fail")}},
+		{name: "commit+report2", db: []fakedb.Fault{fCommit}, tc: []tcstub.Rule{repRule(2)}}}
+	pinShapes := [][]c02Stmt{{{"update", true}, {"update", true}}, {{"insert", true}, {"delete", true}, {"update", true}}, {{"update", false}, {"insert", true}}, {{"delete", true}, {"update", true}}}
+	for si, sh := range pinShapes {
+		for fi, f := range pinFaults {
+			if thorough || (si+fi)%2 == 0 || f.name == "commit+rollback1" {
+				out = append(out, c02Pinned(idx, sh, f))
+				idx++
+			}
+		}
+	}
 	// seeded: longer explicit transactions with a random commit-path fault
 	kinds := []string{"update", "delete", "insert"}
 	for i := 0; i < n; i++ {
@@ -221,4 +252,48 @@ func c02Cases(r *hutil.Rng, n int, thorough bool) []Case {
 		idx++
 	}
 	return out
+}
+
+// c02Pinned: consecutive autocommit statements on one pinned connection inside one global transaction.
+func c02Pinned(idx int, stmts []c02Stmt, f c02Fault) Case {
+	sc := atrun.Scenario{Name: fmt.Sprintf("c02-pinned-%d-%s", idx, f.name), Setup: []string{c02DDL}}
+	for k := 1; k <= 6; k++ {
+		sc.Setup = append(sc.Setup, fmt.Sprintf("INSERT INTO t_kv (k,Val) VALUES (%d,%d)", k, 10*k))
+	}
+	meta := Meta{Stream: "clean", Table: "t_kv", Cols: []ColMeta{{"k", "int", false}, {"Val", "int", false}}, PK: []int{0}, OnlyCare: true,
+		Extra: map[string]string{"mode": "pinned", "commit": "true", "fault": f.name, "uses": strconv.Itoa(len(stmts))}}
+	steps := []atrun.Step{
+		{Op: "gtx", Steps: []atrun.Step{{Op: "exec", SQL: "UPDATE t_kv SET Val = Val + 1 WHERE k = 6"}}},
+	}
+	for i := range f.db {
+		ff := f.db[i]
+		steps = append(steps, atrun.Step{Op: "db_fault", Fault: &ff})
+	}
+	if len(f.tc) > 0 {
+		steps = append(steps, atrun.Step{Op: "tc_script", Rules: f.tc})
+	}
+	g := len(steps)
+	body := []atrun.Step{{Op: "dump"}}
+	for j, s := range stmts {
+		st, m := c02Step(j, s, "p1")
+		meta.Extra[fmt.Sprintf("dump_pre.%d", j)] = fmt.Sprintf("%d.%d", g, len(body)-1)
+		m.Path = fmt.Sprintf("%d.%d", g, len(body))
+		meta.Extra[fmt.Sprintf("use_path.%d", j)] = m.Path
+		body = append(body, st)
+		meta.Extra[fmt.Sprintf("dump_post.%d", j)] = fmt.Sprintf("%d.%d", g, len(body))
+		body = append(body, atrun.Step{Op: "dump"})
+		meta.Stmts = append(meta.Stmts, m)
+	}
+	body = append(body, atrun.Step{Op: "conn_close", Conn: "p1"})
+	steps = append(steps, atrun.Step{Op: "gtx", Steps: body}, atrun.Step{Op: "db_fault_clear"})
+	meta.Extra["dump_post"] = strconv.Itoa(len(steps))
+	steps = append(steps, atrun.Step{Op: "dump"})
+	meta.Extra["probe_q"] = strconv.Itoa(len(steps))
+	steps = append(steps, atrun.Step{Op: "query", SQL: "SELECT k, Val FROM t_kv ORDER BY k"})
+	meta.Extra["probe_x"] = strconv.Itoa(len(steps))
+	steps = append(steps, atrun.Step{Op: "exec", SQL: "UPDATE t_kv SET Val = 7777 WHERE k = 5"})
+	meta.Extra["dump_end"] = strconv.Itoa(len(steps))
+	steps = append(steps, atrun.Step{Op: "dump"})
+	sc.Steps = steps
+	return Case{Scenario: sc, Meta: meta}
 }
